@@ -59,8 +59,8 @@ CLAIMED = {
    note="encoding/json.Decoder and strconv.AppendFloat are contract stubs in symbolic runs (native replay uses the real ones on rendered text / the denoted float). Outside: nesting deeper than the token bound, long strings. Defects found and fixed: be45fb5, d74cb55, b5a11db, 1c33f8c.",
    ref="DESIGN.md 5 (C07)"),
  "C14": dict(
-   text="Panic freedom on bounded skeletons, decided by symbolic execution with z3 path feasibility: invoice, payment and envelope skeletons whose optional pointers are nil or not and whose currency codes range over {absent, defined, other, undefined} (by choice) with symbolic numbers are driven through bill.calculate, Payment.calculate, DocumentRef.Calculate, Envelope.Verify/Header.Contains and the c14n token layer; no feasible path may end in a Go run-time panic (nil dereference, index out of range, failed assertion, division by zero). Every panic found is replayed against the natively compiled code before it is reported.",
-   note="Outside: arbitrary bytes through encoding/json / YAML, hangs, the CLI process, error keys and JSON serialisation of errors (reflection, I/O). Defects found and fixed: ececb16 (empty signature / nil header), 30b8846 (undefined currency), 1c33f8c (c14n empty input), 9131962.",
+   text="Panic freedom on bounded skeletons, decided by symbolic execution with z3 path feasibility: invoice, payment and envelope skeletons whose optional pointers are nil or not and whose currency codes range over {absent, defined, other, undefined} (by choice) with symbolic numbers are driven through bill.calculate, Payment.calculate, DocumentRef.Calculate, Envelope.Verify/Header.Contains, the c14n token layer, and - for calculated invoices of eight regimes with every published addon switched on and optional parts (tax object, customer, tax id, line taxes) absent - Invoice.Validate with the real regime and addon validators; no feasible path may end in a Go run-time panic (nil dereference, index out of range, failed assertion, division by zero). Every panic found is replayed against the natively compiled code before it is reported.",
+   note="Outside: arbitrary bytes through encoding/json / YAML, hangs, the CLI process, error keys and JSON serialisation of errors (reflection, I/O). Defects found and fixed: ececb16 (empty signature / nil header), 30b8846 (undefined currency), 1c33f8c (c14n empty input), 9131962, fea0aa2 and 57ce5ad (addon validators on an invoice without tax object).",
    ref="DESIGN.md 5 (C14)"),
  "C01": dict(
    text="Unit layer of the document calculation, bounded model checking with z3: from an arbitrary symbolic pre-state each step of the real code - calculateLine (price x quantity, percentage discount, percentage / rate-times-quantity charge), calculateDiscounts/Charges and their sums (with and without explicit base), advances, advance total and percentage due dates, foreign-currency item price conversion (exchange rate or alternative price) - yields exactly the half-away-from-zero rounding of the exact product / percentage at the documented working precision (>= currency+2 under 'precise', currency under 'currency'), fixed amounts are only raised, never rounded, before use, and line totals are sum - discounts + charges. The accounting identities of the whole pipeline are decided under the currency rule in C03, the fixpoint in C04.",
@@ -75,8 +75,8 @@ CLAIMED = {
    note="Stubs: the final recalculation inside Correct (success), the clock. Outside: fidelity of schema.Object.Clone (JSON round trip by reflection), envelope-level header/signature immutability, CLI/bulk parsing, addon-specific definitions.",
    ref="DESIGN.md 5 (C16)"),
  "C18": dict(
-   text="Leaf rule only: for every registered extension key (regime, addon and catalogue definitions imported from the registry) and EVERY ASCII candidate value of 1..3 bytes (symbolic), the solver shows that tax.Extensions.Validate accepts the value only if the published definition file (data/addons, data/regimes, data/catalogues, read at run time) lists that code or its pattern matches; an undefined key is rejected.",
-   note="Outside: the wiring of every reference position of every document type to its rule (reflection-driven struct validation), category/rate-key membership, tag, currency and country code rules (not built in this session), values longer than 3 bytes, keys with more than 40 (thorough 300) codes.",
+   text="Bounded model checking with z3 of the reference rules against the published definition files (data/addons, data/regimes, data/catalogues, data/currency, read at run time as the oracle): (1) for every registered extension key and EVERY ASCII candidate value of 1..3 bytes (symbolic), tax.Extensions.Validate accepts only a listed code or a value matching the declared pattern; an undefined key is rejected; (2) a tax combo's category and rate key are accepted only if the regime that applies (the combo's country, else the document's) defines them; (3) wiring: in a valid calculated ES or FR invoice, replacing the currency by ANY three capital letters (symbolic), the regime country by ANY two capital letters (symbolic), or the tag, addon key, category or rate key by any member of a pool of defined and undefined ones, validation by the real Invoice.ValidateWithContext chain succeeds only if the replacement is published.",
+   note="The validation library's reflective dispatcher is modelled in the engine; rule code and all Validate methods run for real; normalisation is skipped. Outside: other reference positions and document types, values longer than 3 bytes, keys with more than 40 (thorough 300) codes, completeness beyond the unchanged skeleton.",
    ref="DESIGN.md 5 (C18)"),
 }
 
